@@ -37,6 +37,37 @@ class Harness(Exception):
     pass
 
 
+class HangDetected(BaseException):
+    """An op ran far longer than anything the unchanged tree needs.  Wall time
+    is used for nothing else: it never influences a result that completes."""
+
+
+OP_LIMIT = float(os.environ.get("VERIF_OP_LIMIT", "20"))
+PAR_LIMIT = float(os.environ.get("VERIF_PAR_LIMIT", "60"))
+
+
+class watchdog:
+    def __init__(self, seconds):
+        self.seconds = seconds
+
+    def __enter__(self):
+        import signal
+
+        def on_alarm(signum, frame):
+            raise HangDetected()
+
+        self._old = signal.signal(signal.SIGALRM, on_alarm)
+        signal.setitimer(signal.ITIMER_REAL, self.seconds)
+        return self
+
+    def __exit__(self, *a):
+        import signal
+
+        signal.setitimer(signal.ITIMER_REAL, 0)
+        signal.signal(signal.SIGALRM, self._old)
+        return False
+
+
 def scope_files(kind):
     pkg = os.path.join(SRC, "multidecoder")
     if kind == "engine":
@@ -87,6 +118,7 @@ class W09:
         self.interleavings = []
         self.kwdir = ""
         self.opi = -1
+        self.aborted = False
 
     def setup(self):
         cfg = self.scn["config"]
@@ -143,12 +175,16 @@ class W09:
         data = self.corpus[i]
         self.counters["scans"] += 1
         try:
-            if via_node:
-                from multidecoder.node import Node
+            with watchdog(OP_LIMIT):
+                if via_node:
+                    from multidecoder.node import Node
 
-                t = sc.scan_node(Node("", data, "", 0, len(data)), d)
-            else:
-                t = sc.scan(data, d)
+                    t = sc.scan_node(Node("", data, "", 0, len(data)), d)
+                else:
+                    t = sc.scan(data, d)
+        except HangDetected as e:
+            self.aborted = True
+            t = e
         except Exception as e:  # noqa: BLE001 - an exception is a result too
             t = e
         self.record(f"{i}:{d}:tree", t)
@@ -174,14 +210,24 @@ class W09:
         # same-world sequential witness for every key
         est = 0
         for (i, d), fn in zip(jobs, fns):
-            t, n = sched.count_steps(scope, fn)
+            try:
+                with watchdog(OP_LIMIT * 2):
+                    t, n = sched.count_steps(scope, fn)
+            except HangDetected as e:
+                self.aborted = True
+                self.record(f"{i}:{d}:tree", e, task="dry")
+                return
             est += n
             self.record(f"{i}:{d}:tree", t, task="dry")
         policy = sched.make_policy(spec, len(fns), est)
         s = sched.Scheduler(scope, policy, step_cap=20 * est + 1000)
-        tasks = s.run(fns)
+        tasks = s.run(fns, timeout=PAR_LIMIT)
+        if s.hung:
+            self.aborted = True
         for (i, d), t in zip(jobs, tasks):
-            if t.error is not None:
+            if not t.done:
+                self.record(f"{i}:{d}:tree", HangDetected(), task=t.idx)
+            elif t.error is not None:
                 self.record(f"{i}:{d}:tree", t.error, task=t.idx)
             else:
                 self.record(f"{i}:{d}:tree", t.result, task=t.idx)
@@ -215,12 +261,16 @@ class W09:
         from multidecoder.query import string_summary
 
         try:
-            v = [
-                tree.flatten().hex(),
-                [model.canon(n)[:5] for n in tree],
-                string_summary(tree),
-                tree_to_json(tree),
-            ]
+            with watchdog(OP_LIMIT):
+                v = [
+                    tree.flatten().hex(),
+                    [[n.type, bytes(n.value).hex(), n.obfuscation, n.start, n.end] for n in tree],
+                    string_summary(tree),
+                    tree_to_json(tree),
+                ]
+        except HangDetected:
+            self.aborted = True
+            v = ["EXC", "HangDetected"]
         except Exception as e:  # noqa: BLE001
             v = ["EXC", type(e).__name__]
         base = key.rsplit(":", 1)[0]
@@ -275,6 +325,8 @@ class W09:
 
         base_threads = threading.active_count()
         for self.opi, op in enumerate(self.w["ops"]):
+            if self.aborted:
+                break
             k = op[0]
             if k == "new":
                 self.new_scanner(op[1])
@@ -295,9 +347,10 @@ class W09:
             else:
                 raise Harness("unknown op " + k)
         self.opi = len(self.w["ops"])
+        self.counters["aborted_after_hang"] = int(self.aborted)
         # nobody but its owner changes a result
         for key, dg, tree, mutated in self.stored:
-            if mutated:
+            if mutated or self.aborted:
                 continue
             now = model.digest(model.canon(tree))
             if now != dg:
@@ -960,7 +1013,27 @@ def self_json(tree):
 
 def main():
     faulthandler.enable()
-    req = json.load(sys.stdin)
+    try:
+        import resource
+
+        lim = int(os.environ.get("VERIF_WORLD_MEM", str(6 << 30)))
+        resource.setrlimit(resource.RLIMIT_AS, (lim, lim))
+    except Exception:  # noqa: BLE001
+        pass
+    req = json.loads(sys.stdin.buffer.read().decode("utf-8"))
+    # The log goes to a private descriptor; descriptors 0/1 of the world are
+    # not the simulated process's streams.  Anything the code under test
+    # writes to fd 1 directly (bypassing sys.stdout) lands in a scratch file
+    # and is counted, instead of corrupting the log.
+    log_fd = os.dup(1)
+    stray_path = os.path.join(os.environ.get("VERIF_SCRATCH", "/tmp"), "stray-fd1.bin")
+    os.makedirs(os.path.dirname(stray_path), exist_ok=True)
+    stray = os.open(stray_path, os.O_WRONLY | os.O_CREAT | os.O_TRUNC, 0o600)
+    os.dup2(stray, 1)
+    os.close(stray)
+    devnull = os.open(os.devnull, os.O_RDONLY)
+    os.dup2(devnull, 0)
+    os.close(devnull)
     scn = req["scenario"]
     widx = req.get("world", 0)
     scratch = os.environ.get("VERIF_SCRATCH")
@@ -982,9 +1055,20 @@ def main():
     finally:
         FS.uninstall()
     out["fs"] = FS.counters_json()
-    sys.stdout.write(json.dumps(out))
-    sys.stdout.write("\n")
-    sys.stdout.flush()
+    try:
+        sys.stdout.flush()
+    except Exception:  # noqa: BLE001
+        pass
+    try:
+        out["stray_fd1_bytes"] = os.path.getsize(stray_path)
+    except OSError:
+        out["stray_fd1_bytes"] = 0
+    payload = memoryview((json.dumps(out) + "\n").encode("utf-8"))
+    while payload:
+        n = os.write(log_fd, payload)
+        payload = payload[n:]
+    # never wait for abandoned (hung) task threads at interpreter shutdown
+    os._exit(0)
 
 
 if __name__ == "__main__":
